@@ -74,6 +74,13 @@ def run(chk, repo):
     chk.doc("R03.7", "packet-size guards compare strictly (shared with "
                      "C05 / C07)")
     sh.guard_strictness(chk, repo, "R03.7")
+    # the constant a fixed-point value is compared with is scaled in place
+    # after it was built; a memory operand is loaded at the width the
+    # comparison asks for (shared with C01)
+    from .c01 import not_memoised, load_width
+    chk.doc("R01.7", "constants are not memoised (shared with C01)")
+    not_memoised(chk, repo)
+    load_width(chk, repo, "R03.6")
 
 
 # statements that remove or insert instructions, allowed per function (read
